@@ -8,12 +8,15 @@
        the date as trash-restore/-empty read it (C20), question marks when undated - and nothing on stderr;
    (b) every other info file yields no stdout record, only a diagnostic on stderr;
    (c) which directories are scanned: the home trash, and per volume .Trash/$uid only when secure (C08) and
-       .Trash-$uid when it is a directory: Scan.scan_trash_dirs;
+       .Trash-$uid when it is a directory: Scan.scan_trash_dirs - and that this is ALL of them, each once, in order, for every
+       consumer of the scan, under a file system that holds still while it is looked at (Proofs/StaticScan.v:
+       scanner_visits_exactly_the_usable_directories, list_visits_exactly_the_usable_directories,
+       asked_about_exactly_the_usable_directories; with --all-users: the same for every entry of the password database);
    (d) the commands that change the bag do so entry-wise: put adds one pair after the other checks (C05),
        restore/rm/empty remove payload then info of exactly the selected entries (C13, C12, C10, C15);
    (e) trash-list itself changes nothing: it issues no mutating operation, every file system a run is consistent with is
        afterwards what it was (list_issues_no_mutation, list_changes_nothing). *)
-From TV Require Import Prelude.Str Prelude.PosixPath Codec.TrashInfo Prog.Prog Cmd.Put Cmd.Scan Cmd.ListCmd Proofs.ProgProofs World.World Proofs.ListReadOnly Proofs.Independence Proofs.AsIfAbsent.
+From TV Require Import Prelude.Str Prelude.PosixPath Codec.TrashInfo Prog.Prog Cmd.Put Cmd.Scan Cmd.ListCmd Proofs.ProgProofs World.World Proofs.ListReadOnly Proofs.Independence Proofs.AsIfAbsent Proofs.StaticScan.
 From Coq Require Import List.
 Import ListNotations.
 Open Scope N_scope.
@@ -72,3 +75,56 @@ Example list_line :
   = [(ReadText ($"/vol/.Trash-0/info/a.trashinfo"), RStr ($"[Trash Info]" ++ [10] ++ $"Path=d/a%20b" ++ [10] ++ $"DeletionDate=2024-01-02T03:04:05" ++ [10]));
      (Out false ($"2024-01-02 03:04:05 /vol/d/a b" ++ [10]), RUnit)].
 Proof. vm_compute. reflexivity. Qed.
+
+(* ---- every usable trash directory, and nothing else (Proofs/StaticScan.v) ----
+   `fs : op -> res` is a file system that holds still: every operation has one answer; `sane`: predicates answer yes or no, a
+   directory can be stat'ed, the mount table can be read.  `selected_events fs all_users env uid` is the declarative list: per user
+   (the caller, or every entry of the password database with --all-users) the home trash, then per volume (TRASH_VOLUMES, else
+   the mount points that are directories)  $topdir/.Trash/$uid  if it exists and $topdir/.Trash is a sticky directory and not a
+   link (a skip event otherwise),  $topdir/.Trash-$uid  if it is a directory.  For EVERY consumer h the scan is h applied to
+   exactly these events in this order (sfold): none left out, none twice, nothing else. *)
+Theorem scanner_visits_exactly_the_usable_directories :
+  forall fs (S : Type) (h : S -> scan_event -> prog S) all_users env uid s, sane fs ->
+  srun fs (select_trash_dirs h all_users [] env uid s) = sfold fs h (selected_events fs all_users env uid) s.
+Proof. intros. apply static_select_lemma. assumption. Qed.
+Print Assumptions scanner_visits_exactly_the_usable_directories.
+
+(* in terms of runs: a run of trash-list all of whose answers are the static ones ends as the per-directory handler applied
+   to exactly those events ends *)
+Theorem list_visits_exactly_the_usable_directories : forall fs o, sane fs -> lo_trash_dirs o = [] ->
+  all_runs (fun t out => Forall (fun p => snd p = fs (fst p)) t ->
+              out = then_run (sfold fs (list_handle o) (selected_events fs (lo_all_users o) (lo_environ o) (lo_uid o)) tt)
+                             (fun _ => Done 0))
+           (list_main o).
+Proof. exact static_list_lemma. Qed.
+Print Assumptions list_visits_exactly_the_usable_directories.
+
+(* what interactive trash-empty asks about (list(trash_dirs)) is that list *)
+Theorem asked_about_exactly_the_usable_directories : forall fs all_users env uid, sane fs ->
+  srun fs (select_trash_dirs (fun acc ev => Ret (acc ++ [ev])) all_users [] env uid []) = Done (selected_events fs all_users env uid).
+Proof. exact static_collect_lemma. Qed.
+Print Assumptions asked_about_exactly_the_usable_directories.
+
+(* non-vacuity: a sane file system with a sticky /vol/.Trash holding the caller's directory, and a /vol/.Trash-7 *)
+Definition ex_fs : statics := fun o =>
+  match o with
+  | Prog.Exists p => RBool (str_eqb p ($"/vol/.Trash/7"))
+  | Isdir p => RBool (str_eqb p ($"/vol/.Trash") || str_eqb p ($"/vol/.Trash-7"))
+  | Stat _ => RStat 17407 0
+  | ListMounts => RList []
+  | _ => if bool_op o then RBool false else RUnit
+  end.
+Example ex_fs_sane : sane ex_fs.
+Proof.
+  constructor.
+  - intros o Hb. destruct o; simpl in *; try discriminate; eauto.
+  - intros p _. simpl. eauto.
+  - simpl. eauto.
+Qed.
+Example ex_fs_events :
+  selected_events ex_fs None [($"HOME", $"/home/u"); ($"TRASH_VOLUMES", $"/vol")] 7
+  = [Found ($"/home/u/.local/share/Trash") ($"/"); Found ($"/vol/.Trash/7") ($"/vol"); Found ($"/vol/.Trash-7") ($"/vol")]
+  /\ selected_events ex_fs (Some [($"/home/a", 7); ($"/home/b", 8)]) [($"TRASH_VOLUMES", $"/vol")] 0
+  = [Found ($"/home/a/.local/share/Trash") ($"/"); Found ($"/vol/.Trash/7") ($"/vol"); Found ($"/vol/.Trash-7") ($"/vol");
+     Found ($"/home/b/.local/share/Trash") ($"/")].
+Proof. split; vm_compute; reflexivity. Qed.
